@@ -17,6 +17,8 @@ Theorem C05_code_conforms :
   && skel_eqb skel_OutPort_Close exp_OutPort_Close
   && skel_eqb skel_InPort_CloseConnection exp_InPort_CloseConnection
   && skel_eqb skel_Task_Execute exp_Task_Execute
+  && skel_eqb skel_Workflow_IncConcurrentTasks exp_Workflow_IncConcurrentTasks
+  && skel_eqb skel_Workflow_DecConcurrentTasks exp_Workflow_DecConcurrentTasks
   && skel_eqb skel_FinalizePaths exp_FinalizePaths = true.
 Proof. vm_compute. reflexivity. Qed.
 
